@@ -8,10 +8,11 @@ cd /verif
 ls -d refactorings/*/ | while read d; do n=$(basename $d); echo "/verif/$d/patch.diff $n"; done > $OUT/list
 cat > $OUT/run.sh <<EOS
 #!/bin/sh
+export VERIF_BUILD_DIR=/verif/.build/slot\$SLOT
 /verif/tryall_scratch.sh \$1 $PROPS > $OUT/\$2.txt 2>&1
 EOS
 chmod +x $OUT/run.sh
-cat $OUT/list | xargs -P $J -n 2 $OUT/run.sh
+cat $OUT/list | xargs --process-slot-var=SLOT -P $J -n 2 $OUT/run.sh
 bad=0
 for f in $OUT/*.txt; do
   if grep -q "patch does not apply" $f; then echo "NOT-APPLICABLE $(basename $f .txt): the stored patch no longer applies to the current tree (re-base it)"; continue; fi
